@@ -132,6 +132,9 @@ class PairRun:
         self.vals = [unhex(x) for x in bits]
         self.model = {}        # switch name -> list of bit strings
         self.warn = (0, 0)
+        self.screens = None    # per-l screening estimates of the real estimate_type2 (bit strings)
+        self.screens_model = None
+        self.screens_differ = False
 
     def maxabs(self):
         return max([abs(v) for v in self.vals] + [0.0])
@@ -158,9 +161,12 @@ def run_real(drv, cases, env=None, noscreen=False):
     runs, cur = [], []
     i = 0
     warn = (0, 0)
+    scr = None
     for l in res.stdout.split("\n"):
         if l.startswith("> "):
             cur.append(l[2:])
+        elif l.startswith("< S"):
+            scr = l.split()[2:]
         elif l.startswith("< W"):
             t = l.split()
             warn = (int(t[2]), int(t[3]))
@@ -170,6 +176,8 @@ def run_real(drv, cases, env=None, noscreen=False):
             # how often the library itself reported a quadrature that did not converge during this call
             # (type 1: "Failed to converge"; type 2 on-centre: "Failed at second attempt")
             runs[-1].warn = warn
+            runs[-1].screens = scr
+            scr = None
             warn = (0, 0)
             cur = []; i += 1
     if len(runs) != len(cases):
@@ -187,9 +195,13 @@ def run_model(runs, switches=("code",), timeout=7200):
                     lines.append("sw " + (l[3:] if s == "as-run" else SW[s]))
             else:
                 lines.append(l)
-    out = [l for l in core.run_driver(lines, timeout=timeout) if l.startswith("V ") or l.startswith("bad")]
+    out = [l for l in core.run_driver(lines, timeout=timeout) if l.startswith("V ") or l.startswith("bad") or l.startswith("S ") or l == "S"]
     k = 0
     for r in runs:
+        if "screens" in r.req and k < len(out) and out[k].startswith("S"):
+            r.screens_model = out[k].split()[1:]
+            r.screens_differ = r.screens is not None and not same_bits(r.screens, r.screens_model)
+            k += 1
         for s in switches:
             if k >= len(out) or not out[k].startswith("V "):
                 r.model[s] = None
@@ -199,6 +211,9 @@ def run_model(runs, switches=("code",), timeout=7200):
             else:
                 t = out[k].split()
                 r.model[s] = t[3:] if (int(t[1]), int(t[2])) == (r.nA, r.nB) else None
+                # the model as the code runs it must also reproduce the screening estimates bit for bit
+                if r.screens_differ and s in ("code", "as-run"):
+                    r.model[s] = None
                 k += 1
     return runs
 
